@@ -79,6 +79,7 @@ static char *v_getenv(const char *name)
 #define getenv v_getenv
 
 static FILE fake_fp[4];
+static FILE inc_fp[3];
 static int open_fail;
 static FILE *v_fopen(const char *path, const char *mode)
 {
@@ -262,15 +263,32 @@ int main(void)
 #else
 		(void)vin_qindex;
 #endif
-		set_depth(DEPTH);
+		/* the parse was aborted DEPTH include levels deep: each level has its source on the stack, its
+		 * FILE and the includer's saved name in its slot */
+		{
+			int k;
+
+			for (k = 0; k < DEPTH && k < 3; k++) {
+				cfg_scan_fp_begin(&inc_fp[k]);
+				cfg_include_stack[k].fp = &inc_fp[k];
+				cfg_include_stack[k].filename = malloc(2);
+				V_ASSUME(cfg_include_stack[k].filename != NULL);
+				cfg_include_stack[k].filename[0] = 'n';
+				cfg_include_stack[k].filename[1] = 0;
+				cfg_include_stack[k].line = 1;
+			}
+			cfg_include_stack_ptr = DEPTH;
+			BEGIN(SC);
+		}
 		sp0 = flat_sp;
 		/* what cfg_parse_fp() runs between the end of one parse and the start of the next */
 		cfg_scan_fp_end();
 		cfg_scan_fp_begin(&fake_fp[2]);
 		V_ASSERT(YY_START == INITIAL, "[C08] every parse starts in the initial scanning context, whatever the previous one ended in");
 		V_ASSERT(cfg_qstring == NULL && qstring_index == 0 && qstring_len == 0, "[C08] the scratch buffer of the previous parse is released");
-		V_ASSERT(flat_sp == sp0 && cfg_yyin == &fake_fp[2], "[C08] the previous source is popped and the new one is current");
+		V_ASSERT(flat_sp == 1 && sp0 == DEPTH + 1 && cfg_yyin == &fake_fp[2], "[C08] every source of the previous parse is popped and the new one is current");
 		V_ASSERT(cfg_include_stack_ptr == 0, "[C08] no include level of an earlier parse survives into the next one");
+		V_ASSERT(n_close == DEPTH, "[C07] every included file that an aborted parse left open is closed, exactly once");
 	}
 #endif
 	V_WITNESS("end of harness");
